@@ -6,7 +6,8 @@ the allocation; u8/u16-typed lengths are bounded by their type; (ERRFLOW) an err
 produced while decoding from a local cursor over an already complete frame does
 not flow unchanged (via `?`) to the caller, because the stream deserializer
 classifies end-of-file errors as "incomplete"; (TABLE) deserialize_next returns
-Ok(None) exactly when the decode error is end-of-file; input buffering is bounded.
+Ok(None) exactly when the decode error is end-of-file; input buffering is bounded; no wire decoder
+reads with a primitive that accepts a short read (`read` returning Ok(0)) instead of an EOF error.
 Not decided: equality of outputs across split points."""
 import re
 
